@@ -28,8 +28,13 @@ def gen(chk, tier):
     # id- and za-level signing and verification = digest level on e = SM3(ZA || M):
     # message lengths over every residue mod 64 (ZA || M crosses the padding boundaries)
     msgl = list(range(0, 66 if q else 451)) + [119, 120, 1000]
+    # around plausible internal buffer sizes (a staging buffer of T bytes holds ZA plus T - 32 bytes of message)
+    for T in ((256, 512, 1024, 1536, 2048, 4096) if q else (128, 256, 384, 512, 768, 1024, 1280, 1536, 2048, 3072, 4096, 8192)):
+        msgl += list(range(T - 35, T + 2)) if not q else [T - 34, T - 33, T - 32, T - 31, T - 17, T - 1, T, T + 1]
+    if not q:
+        msgl += list(range(1400, 1700, 3))
     for L in msgl:
-        for kind in (("id", "za") if (not q or L % 3 == 0) else ("id",)):
+        for kind in (("id", "za") if (not q or L % 3 == 0 or L >= 200) else ("id",)):
             kw = dict(kind=kind, priv=b32(d), msg=rb(rng, L), script=sm2gen.script_of([rscalar(rng), rscalar(rng)]))
             if kind == "id":
                 kw["id"] = rb(rng, rng.choice([16, 16, 0, 53, 54]))
